@@ -40,6 +40,17 @@ class MaybeConstantView {
   constexpr ValueT Read() const { return value_.Value(); }
   constexpr ValueT UncheckedRead() const { return value_.ValueOrDefault(); }
   constexpr bool Ok() const { return value_.Known(); }
+  // Parameters take part in the Equals() and UncheckedEquals() methods of the
+  // generated structure views, like fields do.
+  template <typename OtherValueT>
+  constexpr bool Equals(const MaybeConstantView<OtherValueT> &other) const {
+    return Read() == other.Read();
+  }
+  template <typename OtherValueT>
+  constexpr bool UncheckedEquals(
+      const MaybeConstantView<OtherValueT> &other) const {
+    return UncheckedRead() == other.UncheckedRead();
+  }
 
  private:
   ::emboss::support::Maybe<ValueT> value_;
